@@ -1,6 +1,7 @@
-\* trace validation of executions of the real ubuf_pic_mem / ubuf_sound_mem (harness/replay_pic.c)
+\* trace validation of executions of the real ubuf_pic_mem / ubuf_sound_mem / block views (harness/replay_pic.c)
 CONSTANTS
-  Geos <- NoGeos
+  Geos = {}
+  GeoSet <- NoGeoSet
   Handles = {0, 1, 2, 3, 4, 5, 6, 7}
   MaxOps = 0
   MaxResize = 0
